@@ -100,6 +100,24 @@ CORPUS = [
      [((0, 0, 0), 'm3_-2.7'), ((1.5, 0.2, 0), 'm3_-2.7'),
       ((-1.5, 1.5, 0.3), 'm3_-2.7'), ((0.2, -1.7, 1), 'm3_-2.7')],
      {'m3_-2.7'}),
+    # material numbers written 01 and 02 (repaired in /repo d8902ad): the
+    # GEOMCOMP names are those of the compositions
+    ('material-leading-zero', '''corpus material tokens
+1 01 -1.0 -1 imp:n=1
+2 02 -7.8 1 -2 imp:n=1
+3 1 -1.0 2 -3 imp:n=1
+4 00 3 -4 imp:n=1
+5 0 4 imp:n=0
+
+1 so 1
+2 so 2
+3 so 3
+4 so 4
+
+''' + MATS, [],
+     [((0, 0, 0), 'm1_-1.0'), ((1.5, 0, 0), 'm2_-7.8'), ((2.5, 0, 0), 'm1_-1.0'),
+      ((3.5, 0, 0), 'm0')],
+     {'m1_-1.0', 'm2_-7.8'}),
     # the two spellings repaired in /repo 6d1467b
     ('repaired-spellings', '''corpus repaired
 1 1 -1.0 -1 imp:n=1
